@@ -89,6 +89,8 @@ UNITS = {
             "pub fn shared_available(&self) -> usize",
             "pub fn allocate(&self, pool: Pool, bytes: usize) -> Result<()>",
             "pub fn release(&self, pool: Pool, bytes: usize)",
+            "pub fn track(&mut self, bytes: usize) -> Result<()>",
+            "pub fn pre_allocate(&mut self, bytes: usize) -> Result<()>",
         ],
     },
     "agg_state": {
@@ -261,7 +263,7 @@ PROPS = {
     },
     "C39": {
         "level": "proof",
-        "level_text": "Proof of the SEQUENTIAL refinement only: for an arbitrary counter state with sum(pools) <= limit, allocate either fails leaving all five counters unchanged or adds `bytes` to exactly the named pool and keeps the sum <= limit; release subtracts (saturating) from exactly the named pool; allocate+release restores the state. By induction from with_limit this covers every single-threaded history. The property's quantifier over INTERLEAVINGS is not decided: the check-then-CAS on the per-pool counter is a cross-pool race no sequential contract can see.",
+        "level_text": "Proof of the SEQUENTIAL refinement only: for an arbitrary counter state with sum(pools) <= limit, allocate either fails leaving all five counters unchanged or adds `bytes` to exactly the named pool and keeps the sum <= limit; release subtracts (saturating) from exactly the named pool; allocate+release restores the state; PeriodicBudgetTracker::track / pre_allocate move the tracker's claim in lock-step with its successful allocations and Drop releases exactly that claim. By induction from with_limit this covers every single-threaded history. The property's quantifier over INTERLEAVINGS is not decided: the check-then-CAS on the per-pool counter is a cross-pool race no sequential contract can see.",
         "level_note": "Partial: schedules not covered (Kani has no threads; Verus would need the code ported to its atomic/permission types, i.e. a model). Assumes compare_exchange_weak never fails spuriously (Kani models it as strong); sizes <= isize::MAX (Rust allocation bound) so counter sums cannot overflow.",
         "technique": "Kani inductive step contracts over an arbitrary state satisfying the invariant (sequential refinement)",
         "kani_units": ["budget"],
